@@ -6,7 +6,10 @@ import (
 	"go/constant"
 	"go/token"
 	"go/types"
+	"os"
+	"sort"
 	"strings"
+	"sync"
 
 	"golang.org/x/tools/go/ssa"
 )
@@ -157,7 +160,11 @@ func stripSeen(v ssa.Value, seen map[*ssa.Phi]bool) ssa.Value {
 			seen[x] = true
 			var one ssa.Value
 			same := true
-			for _, e := range x.Edges {
+			dead := phiDeadEdges(x)
+			for i, e := range x.Edges {
+				if dead[i] {
+					continue
+				}
 				e = stripSeen(e, seen)
 				if e == ssa.Value(x) {
 					continue
@@ -178,6 +185,97 @@ func stripSeen(v ssa.Value, seen map[*ssa.Phi]bool) ssa.Value {
 			return v
 		}
 	}
+}
+
+var (
+	phiDeadMu    sync.Mutex
+	phiDeadCache = map[*ssa.Phi]map[int]bool{}
+)
+
+// phiDeadEdges: the edges of a phi whose value can never be observed. The phi sits in a block M that ends in a test of
+// (another) phi of M - a variable assigned together with this one on the branches that rejoin in M, such as the error
+// result of an inlined helper. When every use of the phi lies on one side of that test, the edges from which that
+// side cannot be reached contribute nothing (the value a helper returns next to a non-nil error, used only after the
+// error was found nil).
+func phiDeadEdges(x *ssa.Phi) map[int]bool {
+	phiDeadMu.Lock()
+	d, ok := phiDeadCache[x]
+	phiDeadMu.Unlock()
+	if ok {
+		return d
+	}
+	d = computePhiDeadEdges(x)
+	phiDeadMu.Lock()
+	phiDeadCache[x] = d
+	phiDeadMu.Unlock()
+	return d
+}
+
+func computePhiDeadEdges(x *ssa.Phi) map[int]bool {
+	if os.Getenv("AVFSLINT_NOMUSTFACTS") != "" {
+		return nil
+	}
+	m := x.Block()
+	if m == nil || len(m.Instrs) == 0 || len(m.Preds) < 2 {
+		return nil
+	}
+	iff, ok := m.Instrs[len(m.Instrs)-1].(*ssa.If)
+	if !ok || len(m.Succs) != 2 || m.Succs[0] == m.Succs[1] {
+		return nil
+	}
+	refs := x.Referrers()
+	if refs == nil {
+		return nil
+	}
+	for side := 0; side < 2; side++ {
+		s := m.Succs[side]
+		if len(s.Preds) != 1 {
+			continue
+		}
+		all, any := true, false
+		for _, r := range *refs {
+			if _, isDbg := r.(*ssa.DebugRef); isDbg {
+				continue
+			}
+			any = true
+			b := r.Block()
+			if ph, isPhi := r.(*ssa.Phi); isPhi {
+				// a use by a phi happens on the edge from the predecessor: that predecessor must be on the side
+				ok := false
+				for j, e := range ph.Edges {
+					if e == ssa.Value(x) && j < len(b.Preds) && s.Dominates(b.Preds[j]) {
+						ok = true
+					}
+				}
+				if !ok {
+					all = false
+				}
+				continue
+			}
+			if b == nil || !s.Dominates(b) {
+				all = false
+			}
+		}
+		if !all || !any {
+			continue
+		}
+		dead := map[int]bool{}
+		for j, q := range m.Preds {
+			// what is known when m is entered from q: the outcomes that hold at q, and q's own branch
+			facts := factsAt(q)
+			if qi, ok := q.Instrs[len(q.Instrs)-1].(*ssa.If); ok && len(q.Succs) == 2 && q.Succs[0] != q.Succs[1] {
+				facts = append(append([]Fact(nil), facts...), Fact{Cond: qi.Cond, Truth: q.Succs[0] == m, If: qi})
+			}
+			ctx := func(v ssa.Value) int { return nilnessFromFacts(facts, v) }
+			if !decisionPossibleFrom(m, iff.Cond, side == 0, j, ctx) {
+				dead[j] = true
+			}
+		}
+		if len(dead) > 0 && len(dead) < len(m.Preds) {
+			return dead
+		}
+	}
+	return nil
 }
 
 func constInt(v ssa.Value) (int64, bool) {
@@ -331,18 +429,422 @@ type Fact struct {
 	If    *ssa.If
 }
 
-// factsAt lists the branch conditions that hold whenever control reaches b (conditions of dominating Ifs
-// whose taken edge is the only way into a block dominating b).
+// factsAt lists the branch conditions that hold whenever control reaches b: the conditions of dominating Ifs whose
+// taken edge is the only way into a block dominating b, followed by the conditions that hold on every path to b although
+// no single branch dominates it (mustFacts: branches that rejoin before a test of a value that tells them apart, the
+// shape an inlined helper with early returns takes).
 func factsAt(b *ssa.BasicBlock) []Fact {
 	var out []Fact
+	have := map[factKey]bool{}
 	for d := b; d != nil; d = d.Idom() {
 		// find Ifs: d's idom chain; d is entered via its preds. A fact arises if d has a single pred p ending in If.
 		if len(d.Preds) == 1 {
 			p := d.Preds[0]
 			if iff, ok := p.Instrs[len(p.Instrs)-1].(*ssa.If); ok && p.Succs[0] != p.Succs[1] {
 				out = append(out, Fact{Cond: iff.Cond, Truth: p.Succs[0] == d, If: iff})
+				have[factKey{iff.Cond, p.Succs[0] == d}] = true
 			}
 		}
+	}
+	if os.Getenv("AVFSLINT_NOMUSTFACTS") == "" {
+		for _, fa := range mustFactsAt(b) {
+			if !have[factKey{fa.Cond, fa.Truth}] {
+				out = append(out, fa)
+			}
+		}
+	}
+	return out
+}
+
+type factKey struct {
+	c ssa.Value
+	t bool
+}
+
+var (
+	mustFactsMu    sync.Mutex
+	mustFactsCache = map[*ssa.Function]map[*ssa.BasicBlock][]Fact{}
+)
+
+func mustFactsAt(b *ssa.BasicBlock) []Fact {
+	f := b.Parent()
+	mustFactsMu.Lock()
+	m, ok := mustFactsCache[f]
+	mustFactsMu.Unlock()
+	if !ok {
+		m = computeMustFacts(f)
+		mustFactsMu.Lock()
+		mustFactsCache[f] = m
+		mustFactsMu.Unlock()
+	}
+	return m[b]
+}
+
+// nilness of a value: +1 certainly non-nil, -1 certainly nil, 0 unknown.
+func nilnessOf(v ssa.Value, depth int) int {
+	if v == nil || depth > 6 {
+		return 0
+	}
+	switch x := v.(type) {
+	case *ssa.Const:
+		if x.IsNil() {
+			return -1
+		}
+		return 1
+	case *ssa.MakeInterface, *ssa.Alloc, *ssa.MakeSlice, *ssa.MakeMap, *ssa.MakeClosure, *ssa.MakeChan, *ssa.FieldAddr, *ssa.IndexAddr, *ssa.Function:
+		return 1
+	case *ssa.ChangeInterface:
+		return nilnessOf(x.X, depth+1)
+	case *ssa.ChangeType:
+		return nilnessOf(x.X, depth+1)
+	case *ssa.Phi:
+		r := 2
+		for _, e := range x.Edges {
+			n := nilnessOf(e, depth+1)
+			if r == 2 {
+				r = n
+			} else if r != n {
+				return 0
+			}
+		}
+		if r == 2 {
+			return 0
+		}
+		return r
+	case *ssa.UnOp:
+		if x.Op != token.MUL {
+			return 0
+		}
+		switch a := x.X.(type) {
+		case *ssa.Global:
+			// package-level sentinel errors are never nil
+			if strings.HasPrefix(a.Name(), "Err") && isErrorType(deref(a.Type())) {
+				return 1
+			}
+		case *ssa.FieldAddr:
+			// the entries of the per-OS error table (avfs.Errors) are never nil
+			if n := namedOf(a.X.Type()); n != nil && n.Obj().Name() == "Errors" && isErrorType(x.Type()) {
+				return 1
+			}
+		case *ssa.Alloc:
+			vals, entry := reachingStores(a, x)
+			if entry || len(vals) == 0 {
+				return 0
+			}
+			r := 2
+			for _, sv := range vals {
+				n := nilnessOf(sv, depth+1)
+				if r == 2 {
+					r = n
+				} else if r != n {
+					return 0
+				}
+			}
+			if r == 2 {
+				return 0
+			}
+			return r
+		}
+	}
+	return 0
+}
+
+func deref(t types.Type) types.Type {
+	if p, ok := t.Underlying().(*types.Pointer); ok {
+		return p.Elem()
+	}
+	return t
+}
+
+// decisionOnEdge: can the condition of p's terminating If take the value `truth` when p is entered from its i-th
+// predecessor? Decided for nil tests and boolean values that are phis of p (or cells holding such phis); anything
+// else can.
+func decisionPossibleFrom(p *ssa.BasicBlock, cond ssa.Value, truth bool, predIdx int, ctx func(ssa.Value) int) bool {
+	v, t := normCond(cond, truth)
+	sel := func(x ssa.Value) ssa.Value {
+		// the value x has when p is entered from predIdx, if x is a phi of p
+		for i := 0; i < 4; i++ {
+			if ph, ok := x.(*ssa.Phi); ok && ph.Block() == p && predIdx < len(ph.Edges) {
+				x = ph.Edges[predIdx]
+				continue
+			}
+			break
+		}
+		return x
+	}
+	through := func(x ssa.Value) ssa.Value {
+		// look through a cell that holds a phi of p (a spilled result variable)
+		if ld, ok := x.(*ssa.UnOp); ok && ld.Op == token.MUL {
+			if al, ok := ld.X.(*ssa.Alloc); ok {
+				vals, entry := reachingStores(al, ld)
+				if !entry && len(vals) == 1 {
+					return vals[0]
+				}
+			}
+		}
+		return x
+	}
+	switch x := v.(type) {
+	case *ssa.Phi:
+		if k, ok := sel(x).(*ssa.Const); ok && k.Value != nil && k.Value.Kind() == constant.Bool {
+			return constant.BoolVal(k.Value) == t
+		}
+	case *ssa.BinOp:
+		if x.Op != token.EQL && x.Op != token.NEQ {
+			return true
+		}
+		var other ssa.Value
+		if isNilConst(x.Y) {
+			other = x.X
+		} else if isNilConst(x.X) {
+			other = x.Y
+		} else {
+			return true
+		}
+		o := sel(through(other))
+		if o == other {
+			return true // not a phi of p: nothing known per predecessor
+		}
+		eq := (x.Op == token.EQL) == t // the outcome states other == nil
+		nn := nilnessOf(o, 0)
+		if nn == 0 && ctx != nil {
+			nn = ctx(o) // what the branch outcomes on the way in say about o
+		}
+		switch nn {
+		case 1:
+			return !eq
+		case -1:
+			return eq
+		}
+	}
+	return true
+}
+
+// phiNilDecision: when the condition tested at the end of p is a nil test of a phi of p (or of a cell holding one),
+// returns the value the phi has when p is entered from its predIdx-th predecessor and whether the outcome `truth`
+// states that this value is nil.
+func phiNilDecision(p *ssa.BasicBlock, cond ssa.Value, truth bool, predIdx int) (val ssa.Value, isNil bool, ok bool) {
+	v, t := normCond(cond, truth)
+	x, isBin := v.(*ssa.BinOp)
+	if !isBin || (x.Op != token.EQL && x.Op != token.NEQ) {
+		return nil, false, false
+	}
+	var other ssa.Value
+	if isNilConst(x.Y) {
+		other = x.X
+	} else if isNilConst(x.X) {
+		other = x.Y
+	} else {
+		return nil, false, false
+	}
+	if ld, isLd := other.(*ssa.UnOp); isLd && ld.Op == token.MUL {
+		if al, isAl := ld.X.(*ssa.Alloc); isAl {
+			vals, entry := reachingStores(al, ld)
+			if !entry && len(vals) == 1 {
+				other = vals[0]
+			}
+		}
+	}
+	o := other
+	for i := 0; i < 4; i++ {
+		if ph, isPhi := o.(*ssa.Phi); isPhi && ph.Block() == p && predIdx < len(ph.Edges) {
+			o = ph.Edges[predIdx]
+			continue
+		}
+		break
+	}
+	if o == other {
+		return nil, false, false
+	}
+	return o, (x.Op == token.EQL) == t, true
+}
+
+var (
+	synthMu  sync.Mutex
+	synthNil = map[ssa.Value]*ssa.BinOp{}
+)
+
+// synthNilTest: the canonical synthetic condition `v == nil` (one object per value, so that sets of facts can be
+// intersected); only Op, X and Y are meaningful.
+func synthNilTest(v ssa.Value) *ssa.BinOp {
+	synthMu.Lock()
+	defer synthMu.Unlock()
+	if b, ok := synthNil[v]; ok {
+		return b
+	}
+	b := &ssa.BinOp{Op: token.EQL, X: v, Y: ssa.NewConst(nil, v.Type())}
+	synthNil[v] = b
+	return b
+}
+
+// nilnessFromFacts: what a set of branch outcomes says about v: +1 non-nil, -1 nil, 0 nothing.
+func nilnessFromFacts(facts []Fact, v ssa.Value) int {
+	for _, fa := range facts {
+		if x, isNil, ok := nilTest(fa); ok && (x == v || strip(x) == strip(v)) {
+			if isNil {
+				return -1
+			}
+			return 1
+		}
+	}
+	return 0
+}
+
+// computeMustFacts: forward must-analysis of branch outcomes. in(b) is the set of (condition, outcome) pairs that hold
+// on every path from the entry to b. An edge p->b out of an If adds its outcome; when the If tests a value that is a
+// phi of p (a variable assigned on the branches that rejoin in p), only the predecessors of p from which that outcome
+// is possible contribute (one level of jump threading).
+func computeMustFacts(f *ssa.Function) map[*ssa.BasicBlock][]Fact {
+	out := map[*ssa.BasicBlock][]Fact{}
+	if len(f.Blocks) == 0 || len(f.Blocks) > 400 {
+		return out
+	}
+	type set map[factKey]*ssa.If
+	in := map[*ssa.BasicBlock]set{} // absent = top (not reached yet)
+	in[f.Blocks[0]] = set{}
+	inter := func(a, b set) set {
+		if a == nil {
+			c := set{}
+			for k, v := range b {
+				c[k] = v
+			}
+			return c
+		}
+		c := set{}
+		for k, v := range a {
+			if _, ok := b[k]; ok {
+				c[k] = v
+			}
+		}
+		return c
+	}
+	termIf := func(p *ssa.BasicBlock) *ssa.If {
+		if len(p.Instrs) == 0 {
+			return nil
+		}
+		iff, _ := p.Instrs[len(p.Instrs)-1].(*ssa.If)
+		if iff != nil && len(p.Succs) == 2 && p.Succs[0] == p.Succs[1] {
+			return nil
+		}
+		return iff
+	}
+	// facts carried by the edge p -> b (nil when p was not reached yet)
+	var edge func(p, b *ssa.BasicBlock, depth int) (set, bool)
+	edge = func(p, b *ssa.BasicBlock, depth int) (set, bool) {
+		base, reached := in[p]
+		if !reached {
+			return nil, false
+		}
+		iff := termIf(p)
+		if iff == nil {
+			return base, true
+		}
+		truth := p.Succs[0] == b
+		res := base
+		if depth == 0 && len(p.Preds) > 1 {
+			// threading: only predecessors of p from which this outcome is possible
+			var acc set
+			any, pruned, threaded := false, false, false
+			for i, q := range p.Preds {
+				s, ok := edge(q, p, 1)
+				if !ok {
+					continue
+				}
+				ctx := func(v ssa.Value) int {
+					for k := range s {
+						if x, isNil, ok := nilTest(Fact{Cond: k.c, Truth: k.t}); ok && (x == v || strip(x) == strip(v)) {
+							if isNil {
+								return -1
+							}
+							return 1
+						}
+					}
+					return 0
+				}
+				if !decisionPossibleFrom(p, iff.Cond, truth, i, ctx) {
+					pruned = true
+					continue
+				}
+				// the outcome is a statement about the value the tested phi has on this way in
+				if val, isNil, ok := phiNilDecision(p, iff.Cond, truth, i); ok {
+					if _, isConst := val.(*ssa.Const); !isConst {
+						c := set{}
+						for k, v := range s {
+							c[k] = v
+						}
+						c[factKey{synthNilTest(val), isNil}] = iff
+						s = c
+						threaded = true
+					}
+				}
+				any = true
+				acc = inter(acc, s)
+			}
+			if (pruned || threaded) && any {
+				res = acc
+			} else if pruned && !any {
+				return nil, false // the outcome is impossible from every reached predecessor
+			}
+		}
+		c := set{}
+		for k, v := range res {
+			c[k] = v
+		}
+		c[factKey{iff.Cond, truth}] = iff
+		return c, true
+	}
+	for iter := 0; iter < 50; iter++ {
+		changed := false
+		for _, b := range f.Blocks {
+			if b == f.Blocks[0] {
+				continue
+			}
+			if f.Recover != nil && b == f.Recover {
+				continue
+			}
+			var acc set
+			any := false
+			for _, p := range b.Preds {
+				s, ok := edge(p, b, 0)
+				if !ok {
+					continue
+				}
+				any = true
+				acc = inter(acc, s)
+			}
+			if !any {
+				continue
+			}
+			old, had := in[b]
+			if !had || len(old) != len(acc) {
+				in[b] = acc
+				changed = true
+				continue
+			}
+			for k := range acc {
+				if _, ok := old[k]; !ok {
+					in[b] = acc
+					changed = true
+					break
+				}
+			}
+		}
+		if !changed {
+			break
+		}
+	}
+	for b, s := range in {
+		var fs []Fact
+		for k, iff := range s {
+			fs = append(fs, Fact{Cond: k.c, Truth: k.t, If: iff})
+		}
+		sort.Slice(fs, func(i, j int) bool {
+			if fs[i].If.Pos() != fs[j].If.Pos() {
+				return fs[i].If.Pos() > fs[j].If.Pos()
+			}
+			return fs[i].Truth && !fs[j].Truth
+		})
+		out[b] = fs
 	}
 	return out
 }
@@ -781,6 +1283,7 @@ func pathsTo(f *ssa.Function, at ssa.Instruction, limit int) (paths [][]Fact, co
 	}
 	mark(target)
 	complete = true
+	var bpath []*ssa.BasicBlock
 	var walk func(b *ssa.BasicBlock, facts []Fact, seen map[*ssa.BasicBlock]bool)
 	walk = func(b *ssa.BasicBlock, facts []Fact, seen map[*ssa.BasicBlock]bool) {
 		if len(paths) >= limit {
@@ -796,10 +1299,15 @@ func pathsTo(f *ssa.Function, at ssa.Instruction, limit int) (paths [][]Fact, co
 		}
 		seen[b] = true
 		defer delete(seen, b)
+		bpath = append(bpath, b)
+		defer func() { bpath = bpath[:len(bpath)-1] }()
 		last := b.Instrs[len(b.Instrs)-1]
 		if iff, ok := last.(*ssa.If); ok {
-			walk(b.Succs[0], append(append([]Fact(nil), facts...), Fact{iff.Cond, true, iff}), seen)
-			walk(b.Succs[1], append(append([]Fact(nil), facts...), Fact{iff.Cond, false, iff}), seen)
+			for k, truth := range []bool{true, false} {
+				nf := append(append([]Fact(nil), facts...), Fact{iff.Cond, truth, iff})
+				nf = append(nf, phiFactsOnPath(iff, truth, bpath)...)
+				walk(b.Succs[k], nf, seen)
+			}
 			return
 		}
 		for _, s := range b.Succs {
@@ -813,6 +1321,52 @@ func pathsTo(f *ssa.Function, at ssa.Instruction, limit int) (paths [][]Fact, co
 		walk(f.Blocks[0], nil, map[*ssa.BasicBlock]bool{})
 	}
 	return
+}
+
+// phiFactsOnPath: when the condition of iff is a nil test of a phi (or of a cell holding a phi) whose block lies on the
+// path, the outcome also says something about the value the phi took on this path: that statement is returned as a
+// fact on a synthetic comparison `value ==/!= nil` (only Op, X and Y of the synthetic BinOp are meaningful).
+func phiFactsOnPath(iff *ssa.If, truth bool, path []*ssa.BasicBlock) []Fact {
+	v, _ := normCond(iff.Cond, truth)
+	b, ok := v.(*ssa.BinOp)
+	if !ok || (b.Op != token.EQL && b.Op != token.NEQ) {
+		return nil
+	}
+	var other, nilc ssa.Value
+	if isNilConst(b.Y) {
+		other, nilc = b.X, b.Y
+	} else if isNilConst(b.X) {
+		other, nilc = b.Y, b.X
+	} else {
+		return nil
+	}
+	if ld, isLd := other.(*ssa.UnOp); isLd && ld.Op == token.MUL {
+		if al, isAl := ld.X.(*ssa.Alloc); isAl {
+			vals, entry := reachingStores(al, ld)
+			if !entry && len(vals) == 1 {
+				other = vals[0]
+			}
+		}
+	}
+	changed := false
+	for i := 0; i < 4; i++ {
+		ph, isPhi := other.(*ssa.Phi)
+		if !isPhi {
+			break
+		}
+		r := phiOnPath(ph, path)
+		if r == nil {
+			break
+		}
+		other = r
+		changed = true
+	}
+	if !changed {
+		return nil
+	}
+	// the same truth applies to the (un-normalised) synthetic condition built with the original operator
+	_, t := normCond(iff.Cond, truth)
+	return []Fact{{Cond: &ssa.BinOp{Op: b.Op, X: other, Y: nilc}, Truth: t, If: iff}}
 }
 
 // callFact: the fact is the boolean result of a call of method `name` (possibly negated); returns the call and the truth
@@ -950,6 +1504,14 @@ func feasiblyReaches(from, to ssa.Instruction, limit int) bool {
 				if c, ok := v.(*ssa.Const); ok && c.Value != nil && c.Value.Kind() == constant.Bool {
 					if constant.BoolVal(c.Value) != t {
 						continue
+					}
+				}
+				// a nil test of a phi (or of a cell holding one): the value it has on this path decides
+				if pf := phiFactsOnPath(iff, si == 0, path); len(pf) == 1 {
+					if x, isNil, ok := nilTest(pf[0]); ok {
+						if nn := nilnessOf(x, 0); (nn == 1 && isNil) || (nn == -1 && !isNil) {
+							continue
+						}
 					}
 				}
 				contradiction := false
